@@ -89,6 +89,9 @@ func newZZReg(kick bool, nameLen, maxPre int) *zzReg {
 		r.p.playerNames[zzLower(name)] = pl // in kick mode the later player takes over a shared name
 		r.pre = append(r.pre, pl)
 	}
+	// lock discipline: the registry maps are only touched under muP (struct comment)
+	zz.Guard(&r.p.playerIDs, &r.p.muP)
+	zz.Guard(&r.p.playerNames, &r.p.muP)
 	return r
 }
 
